@@ -12,23 +12,37 @@ From DC Require Import Tree.LineTree Tree.LineTreeProof Tree.LineTextProof Gen.N
 Import ListNotations.
 Local Open Scope N_scope.
 
-(* ---- line level: sound and complete, single rooted tree ---- *)
+(* ---- line level: sound and complete, single rooted tree ----
+   [norm_line] identifies the two spellings of a node without children: no suffix (what
+   ClickHouse prints and what [render] produces) and "(children 0)" (the count is still the
+   number of nodes beneath, so the property holds for it). *)
 
 Theorem C04_check_lines_sound_complete :
-  forall ls : list line, check_lines ls = true <-> exists t : rose, ls = render 0 t.
+  forall ls : list line, check_lines ls = true <-> exists t : rose, map norm_line ls = render 0 t.
 Proof. exact check_lines_spec. Qed.
 Print Assumptions C04_check_lines_sound_complete.
 
+(* without any "(children 0)" this is literal equality with a rendering *)
+Theorem C04_check_lines_canonical :
+  forall ls : list line,
+    Forall (fun l => nkids l <> Some 0%nat) ls ->
+    (check_lines ls = true <-> exists t : rose, ls = render 0 t).
+Proof. exact check_lines_strict. Qed.
+Print Assumptions C04_check_lines_canonical.
+
 Theorem C04_parse_lines_unique :
-  forall (ls : list line) (t : rose), parse_lines ls = Some t <-> ls = render 0 t.
+  forall (ls : list line) (t : rose), parse_lines ls = Some t <-> map norm_line ls = render 0 t.
 Proof. exact parse_lines_spec. Qed.
 Print Assumptions C04_parse_lines_unique.
 
-(* "(children 0)" is never accepted: ClickHouse prints no suffix for a node without children *)
-Theorem C04_zero_suffix_rejected :
-  forall ls : list line, Exists (fun l => nkids l = Some 0%nat) ls -> check_lines ls = false.
-Proof. exact check_lines_rejects_zero. Qed.
-Print Assumptions C04_zero_suffix_rejected.
+(* a line that says "no children" (no suffix or "(children 0)") directly followed by a deeper
+   line is rejected, wherever it occurs *)
+Theorem C04_false_leaf_rejected :
+  forall (pre : list line) (a b : line) (post : list line),
+    (nkids a = None \/ nkids a = Some 0%nat) -> (indent a < indent b)%nat ->
+    check_lines (pre ++ a :: b :: post) = false.
+Proof. exact check_lines_rejects_false_leaf. Qed.
+Print Assumptions C04_false_leaf_rejected.
 
 (* depth lemma: a subtree printed at depth d is the subtree printed at depth 0, shifted *)
 Theorem C04_render_shift :
@@ -43,26 +57,39 @@ Theorem C04_check_text_sound :
   forall (kinds : list (list N)) (text : list N),
     check_text kinds text = true ->
     exists t : rose,
-      map parse_line (split_lines text) = render 0 t /\
+      map norm_line (map parse_line (split_lines text)) = render 0 t /\
       unterminated text = [] /\
       Forall (fun bs => has_artefact bs = false) (split_lines text) /\
       Forall (fun bs => In (first_word (label (parse_line bs))) kinds) (split_lines text).
 Proof. exact check_text_sound. Qed.
 Print Assumptions C04_check_text_sound.
 
-(* completeness / non-vacuity: every clean tree's print-out is accepted *)
+(* completeness / non-vacuity: every clean tree's (canonical) print-out is accepted *)
 Theorem C04_check_text_accepts_printed_trees :
   forall (kinds : list (list N)) (t : rose),
     clean kinds t -> check_text kinds (print_tree t) = true.
 Proof. exact check_text_print. Qed.
 Print Assumptions C04_check_text_accepts_printed_trees.
 
-(* both at once: the accepted texts are exactly the printed clean trees *)
+(* both at once: the accepted texts are exactly the print-outs of clean lines that form one
+   rooted tree up to the spelling of a leaf's count *)
 Theorem C04_check_text_exact :
   forall (kinds : list (list N)) (text : list N),
-    check_text kinds text = true <-> exists t : rose, clean kinds t /\ text = print_tree t.
+    check_text kinds text = true <->
+    exists ls : list line,
+      text = print_lines ls /\ Forall (line_clean kinds) ls /\
+      exists t : rose, map norm_line ls = render 0 t.
 Proof. exact check_text_exact. Qed.
 Print Assumptions C04_check_text_exact.
+
+(* and the accepted texts without any "(children 0)" are exactly the printed clean trees *)
+Theorem C04_check_text_exact_canonical :
+  forall (kinds : list (list N)) (text : list N),
+    (check_text kinds text = true /\
+     Forall (fun bs => nkids (parse_line bs) <> Some 0%nat) (split_lines text))
+    <-> exists t : rose, clean kinds t /\ text = print_tree t.
+Proof. exact check_text_exact_canonical. Qed.
+Print Assumptions C04_check_text_exact_canonical.
 
 Theorem C04_print_tree_injective :
   forall (kinds : list (list N)) (t t' : rose),
@@ -107,7 +134,21 @@ Proof. vm_compute. reflexivity. Qed.
 Definition golden_zero_suffix : list N :=
   [83; 101; 108; 101; 99; 116; 87; 105; 116; 104; 85; 110; 105; 111; 110; 81; 117; 101; 114; 121; 32; 40; 99; 104; 105; 108; 100; 114; 101; 110; 32; 49; 41; 10; 32; 69; 120; 112; 114; 101; 115; 115; 105; 111; 110; 76; 105; 115; 116; 32; 40; 99; 104; 105; 108; 100; 114; 101; 110; 32; 49; 41; 10; 32; 32; 83; 101; 108; 101; 99; 116; 81; 117; 101; 114; 121; 32; 40; 99; 104; 105; 108; 100; 114; 101; 110; 32; 50; 41; 10; 32; 32; 32; 69; 120; 112; 114; 101; 115; 115; 105; 111; 110; 76; 105; 115; 116; 32; 40; 99; 104; 105; 108; 100; 114; 101; 110; 32; 49; 41; 10; 32; 32; 32; 32; 70; 117; 110; 99; 116; 105; 111; 110; 32; 99; 111; 117; 110; 116; 32; 40; 99; 104; 105; 108; 100; 114; 101; 110; 32; 49; 41; 10; 32; 32; 32; 32; 32; 69; 120; 112; 114; 101; 115; 115; 105; 111; 110; 76; 105; 115; 116; 32; 40; 99; 104; 105; 108; 100; 114; 101; 110; 32; 48; 41; 10; 32; 32; 32; 84; 97; 98; 108; 101; 115; 73; 110; 83; 101; 108; 101; 99; 116; 81; 117; 101; 114; 121; 32; 40; 99; 104; 105; 108; 100; 114; 101; 110; 32; 49; 41; 10; 32; 32; 32; 32; 84; 97; 98; 108; 101; 115; 73; 110; 83; 101; 108; 101; 99; 116; 81; 117; 101; 114; 121; 69; 108; 101; 109; 101; 110; 116; 32; 40; 99; 104; 105; 108; 100; 114; 101; 110; 32; 49; 41; 10; 32; 32; 32; 32; 32; 84; 97; 98; 108; 101; 69; 120; 112; 114; 101; 115; 115; 105; 111; 110; 32; 40; 99; 104; 105; 108; 100; 114; 101; 110; 32; 49; 41; 10; 32; 32; 32; 32; 32; 32; 84; 97; 98; 108; 101; 73; 100; 101; 110; 116; 105; 102; 105; 101; 114; 32; 116; 101; 115; 116; 46; 104; 105; 116; 115; 10].
 
-Example zero_suffix_fails : classify node_kinds golden_zero_suffix = VTree.
+Example zero_suffix_leaf_accepted : check_text node_kinds golden_zero_suffix = true.
+Proof. vm_compute. reflexivity. Qed.
+
+(* it is read as the same tree as the golden *)
+Example zero_suffix_same_tree :
+  parse_lines (map parse_line (split_lines golden_zero_suffix))
+  = parse_lines (map parse_line (split_lines golden_count_hits)).
+Proof. vm_compute. reflexivity. Qed.
+
+(* but "Function count (children 1)" printed as "Function count (children 0)" -- a node that DOES
+   have a child beneath -- is rejected *)
+Definition golden_false_leaf : list N :=
+  [83; 101; 108; 101; 99; 116; 87; 105; 116; 104; 85; 110; 105; 111; 110; 81; 117; 101; 114; 121; 32; 40; 99; 104; 105; 108; 100; 114; 101; 110; 32; 49; 41; 10; 32; 69; 120; 112; 114; 101; 115; 115; 105; 111; 110; 76; 105; 115; 116; 32; 40; 99; 104; 105; 108; 100; 114; 101; 110; 32; 49; 41; 10; 32; 32; 83; 101; 108; 101; 99; 116; 81; 117; 101; 114; 121; 32; 40; 99; 104; 105; 108; 100; 114; 101; 110; 32; 50; 41; 10; 32; 32; 32; 69; 120; 112; 114; 101; 115; 115; 105; 111; 110; 76; 105; 115; 116; 32; 40; 99; 104; 105; 108; 100; 114; 101; 110; 32; 49; 41; 10; 32; 32; 32; 32; 70; 117; 110; 99; 116; 105; 111; 110; 32; 99; 111; 117; 110; 116; 32; 40; 99; 104; 105; 108; 100; 114; 101; 110; 32; 48; 41; 10; 32; 32; 32; 32; 32; 69; 120; 112; 114; 101; 115; 115; 105; 111; 110; 76; 105; 115; 116; 10; 32; 32; 32; 84; 97; 98; 108; 101; 115; 73; 110; 83; 101; 108; 101; 99; 116; 81; 117; 101; 114; 121; 32; 40; 99; 104; 105; 108; 100; 114; 101; 110; 32; 49; 41; 10; 32; 32; 32; 32; 84; 97; 98; 108; 101; 115; 73; 110; 83; 101; 108; 101; 99; 116; 81; 117; 101; 114; 121; 69; 108; 101; 109; 101; 110; 116; 32; 40; 99; 104; 105; 108; 100; 114; 101; 110; 32; 49; 41; 10; 32; 32; 32; 32; 32; 84; 97; 98; 108; 101; 69; 120; 112; 114; 101; 115; 115; 105; 111; 110; 32; 40; 99; 104; 105; 108; 100; 114; 101; 110; 32; 49; 41; 10; 32; 32; 32; 32; 32; 32; 84; 97; 98; 108; 101; 73; 100; 101; 110; 116; 105; 102; 105; 101; 114; 32; 116; 101; 115; 116; 46; 104; 105; 116; 115; 10].
+
+Example false_leaf_fails : classify node_kinds golden_false_leaf = VTree.
 Proof. vm_compute. reflexivity. Qed.
 
 (* "TableIdentifier test.hits" replaced by "TableIdentifier %!s(<nil>)" *)
@@ -136,6 +177,9 @@ Proof. vm_compute. reflexivity. Qed.
    the 10-node golden above is the print-out of a clean tree *)
 Example clean_tree_exists : exists t, clean node_kinds t /\ print_tree t = golden_count_hits.
 Proof.
-  destruct (proj1 (C04_check_text_exact node_kinds golden_count_hits) golden_passes) as [t [Hc He]].
+  assert (H : check_text node_kinds golden_count_hits = true /\
+              Forall (fun bs => nkids (parse_line bs) <> Some 0%nat) (split_lines golden_count_hits)).
+  { split; [exact golden_passes|]. vm_compute. repeat constructor; discriminate. }
+  destruct (proj1 (C04_check_text_exact_canonical node_kinds golden_count_hits) H) as [t [Hc He]].
   exists t. split; [exact Hc|symmetry; exact He].
 Qed.
